@@ -46,9 +46,13 @@ fn honest(rec: &mut Rec, ctx: &Ctx, idx: u64, rng: &mut ChaCha20Rng) {
               && l.tag == r.msg.tag
               && l.share.encode() == r.msg.share.to_bytes()
               && l.share.t == sc.t
-              && l.ct.len() == want_ct_len
               && f.end == r.bytes.len()
               && l.encode() == r.bytes;
+            // (what is INSIDE the ciphertext chunk - e.g. a nonce next to the encrypted payload - is
+            // not part of the documented wire layout; a length other than the payload's is only counted)
+            if l.ct.len() != want_ct_len {
+              rec.ev("ciphertext_chunk_longer_or_shorter_than_payload");
+            }
             if !ok {
               rec.violation(
                 "layout:report",
